@@ -108,6 +108,90 @@ theorem c04_segv_includes_open_calls (st : Mcount.St) (hc : WClosed st.frames) (
 example : WClosed [({ addr := 2, start := 5, depth := 1 } : Mcount.Frame), { addr := 1, start := 3, depth := 0 }] := by
   simp [WClosed, AllW]
 
+/-- **SIGSEGV / SIGABRT, exactly — under any record-time filter.**  For every shadow stack that satisfies
+    record_trace_data's premise, with frames the filters made NORECORD (a -N function, a call beyond -D, outside -F,
+    below -Z, a location filter) or DISABLED (trace_off) ANYWHERE, the innermost frame included: the handler hands over
+    exactly the ENTRY records of the recordable open calls that were not written yet (`pendingEntries`: outermost
+    first), then the EXIT of the top frame if it was returning - no record of a filtered-out frame, none twice - and
+    afterwards every recordable open call is written. -/
+theorem c04_segv_exact (st : Mcount.St) (hc : WClosed st.frames) (hidx : st.idx > 0) :
+    ∃ fs, segvFlush true st = .flushed fs (pendingEntries st.frames ++ exitPart st.frames) ∧ AllW fs ∧ WClosed fs := by
+  refine ⟨(Mcount.recordTrace st.frames).1, ?_, recordTrace_allW hc, recordTrace_WClosed hc⟩
+  have : st.idx ≠ 0 := by omega
+  simp [segvFlush, this, recordTrace_exact hc]
+
+/-- the statement of the property, in the three clauses a reader asks for: (1) every RECORDABLE open call is included,
+    (2) every ENTRY record handed over belongs to a recordable open call that was still owed, (3) a filtered-out
+    innermost frame makes no difference to its callers -/
+theorem c04_segv_includes_recordable_open_calls (st : Mcount.St) (hc : WClosed st.frames) (hidx : st.idx > 0) :
+    ∃ fs recs, segvFlush true st = .flushed fs recs ∧
+      (∀ f ∈ st.frames, f.skip = false → f.written = false → Mcount.entryRec f ∈ recs) ∧
+      (∀ r ∈ recs, r ∈ exitPart st.frames ∨
+        ∃ f ∈ st.frames, f.skip = false ∧ f.written = false ∧ r = Mcount.entryRec f) ∧
+      (∀ top rest, st.frames = top :: rest → top.skip = true → top.written = false →
+        recs = pendingEntries rest ++ exitPart st.frames) := by
+  obtain ⟨fs, he, _, _⟩ := c04_segv_exact st hc hidx
+  refine ⟨fs, _, he, ?_, ?_, ?_⟩
+  · intro f hf hs hw
+    exact List.mem_append_left _ (mem_pendingEntries.mpr ⟨f, hf, hs, hw, rfl⟩)
+  · intro r hr
+    rcases List.mem_append.mp hr with h | h
+    · exact Or.inr (mem_pendingEntries.mp h)
+    · exact Or.inl h
+  · intro top rest he2 hs hw
+    rw [he2]
+    simp [pendingEntries, hs]
+
+/-- non-vacuity: the crash happens in a -N function (NORECORD) called from a call beyond the reach of a time filter that
+    is itself below a disabled frame; the three recordable callers are handed over outermost first, the two filtered
+    frames are not -/
+example :
+    segvFlush true { frames := [({ addr := 9, start := 50, depth := 3, norecord := true } : Mcount.Frame),
+                                 { addr := 4, start := 40, depth := 2 },
+                                 { addr := 3, start := 30, depth := 2, disabled := true },
+                                 { addr := 2, start := 20, depth := 1 },
+                                 { addr := 1, start := 10, depth := 0 }] } =
+      .flushed [{ addr := 9, start := 50, depth := 3, norecord := true },
+                { addr := 4, start := 40, depth := 2, written := true },
+                { addr := 3, start := 30, depth := 2, disabled := true },
+                { addr := 2, start := 20, depth := 1, written := true },
+                { addr := 1, start := 10, depth := 0, written := true }]
+               [{ time := 10, type := 0, depth := 0, addr := 1 }, { time := 20, type := 0, depth := 1, addr := 2 },
+                { time := 40, type := 0, depth := 2, addr := 4 }] := by
+  simp [segvFlush, Mcount.St.idx, Mcount.recordTrace, Mcount.flushBelow, Mcount.Frame.skip, Mcount.entryRec]
+
+/-- **… after ANY call history under ANY option set.**  `WClosed` is not an assumption about the thread: every state
+    the hook model reaches from the initial one - any sequence of entries and returns through either hook family, under
+    any filter / trigger / depth / time / size / trace_on-off configuration (`cfg`), with flushes and forks in between -
+    satisfies it.  So whenever the thread crashes with an open call, the handler hands over exactly the ENTRY records
+    of its recordable open calls that were still owed, outermost first, whatever the filters did to the innermost
+    frame. -/
+theorem c04_segv_after_any_history (cfg : Mcount.Cfg) (ops : List HookOp) :
+    let st := runHooks cfg (Mcount.St.init cfg) ops
+    st.idx > 0 →
+    ∃ fs, segvFlush true st = .flushed fs (pendingEntries st.frames ++ exitPart st.frames) ∧ AllW fs := by
+  intro st hidx
+  have hc : WClosed st.frames := runHooks_WClosed cfg ops _ (by simp [Mcount.St.init, WClosed])
+  obtain ⟨fs, h1, h2, _⟩ := c04_segv_exact st hc hidx
+  exact ⟨fs, h1, h2⟩
+
+/-- non-vacuity: `-N f2` (trigger `filter = out` on function 2), the thread enters f0, f1, f2 through cygprof hooks and
+    crashes in f2: its frame is NORECORD, the ENTRY records of f0 and f1 are handed over -/
+example :
+    let cfg : Mcount.Cfg := { trig := fun f => if f = 2 then { filter := some false } else {} }
+    let st := runHooks cfg (Mcount.St.init cfg) [.enter .cyg 0 1000, .enter .cyg 1 1010, .enter .cyg 2 1020]
+    (st.frames.map (·.norecord), pendingEntries st.frames) =
+      ([true, false, false], [{ time := 1000, type := 0, depth := 0, addr := 0 }, { time := 1010, type := 0, depth := 1, addr := 1 }]) := by
+  decide
+
+/-- the finish trigger and the fork / exec / exit flush call record_trace_data for the frame of the triggering
+    function / library call, which the filters may have made NORECORD as well: same statement -/
+theorem c04_flush_filtered_top_keeps_callers {top : Mcount.Frame} {rest : List Mcount.Frame}
+    (hc : WClosed (top :: rest)) (hs : top.skip = true) (hw : top.written = false) :
+    (Mcount.recordTrace (top :: rest)).2 = pendingEntries rest ++ exitPart (top :: rest) ∧
+      AllW (Mcount.recordTrace (top :: rest)).1 :=
+  ⟨recordTrace_filtered_top hc hs hw, recordTrace_allW hc⟩
+
 /-- the code as it is: with -finstrument-functions the call depth is counted beyond `--max-stack`
     (`cygprof_entry` "even if it already exceeds the rstack max"), and the crash handler — like every
     caller of mcount_rstack_restore — uses `rstack[idx - 1]`: outside the array (finding F11) -/
